@@ -35,7 +35,8 @@ ObjV == {V("object", xp, "none", FALSE, keep, "") : xp \in {0, 1, 3}, keep \in B
 ArrV == {V("array", 0, "none", FALSE, keep, "") : keep \in BOOLEAN}
 CatV == {V("concat", xp, ty, FALSE, FALSE, "") : xp \in {0, 1}, ty \in {"none", "int"}}
         \cup {V("coalesce", 0, "none", FALSE, FALSE, ""), V("upper", 0, "none", FALSE, FALSE, "")}
-ExtV == {V("external", 0, "none", FALSE, FALSE, "p1"), V("external", 0, "int", FALSE, FALSE, "p2"), V("external", 0, "none", FALSE, TRUE, "p3")}
+ExtV == {V("external", 0, "none", FALSE, FALSE, "p1"), V("external", 0, "int", FALSE, FALSE, "p2"), V("external", 0, "none", FALSE, TRUE, "p3"),
+         V("external", 0, "none", FALSE, FALSE, "p4"), V("external", 0, "none", FALSE, TRUE, "p4")}
 AllV == FieldV \cup ConstV \cup ObjV \cup ArrV \cup CatV \cup ExtV
 LeafK == {"field", "const", "external"}
 
